@@ -73,7 +73,7 @@ Definition insert_core (c0 : coll) (fs1 : list (string * value)) (id : value) : 
       | Some _ => (c1, Err EDup)
       | None =>
           let data := patch (VDoc fs1) in
-          let c2 := with_docs c1 (docs c1 ++ [(id, data)]) in
+          let c2 := with_docs_w c1 (docs c1 ++ [(id, data)]) in
           match ensure_uniques c2 data with
           | Ok touched =>
               match expire_if touched c2 with
@@ -110,7 +110,7 @@ Proof.
   destruct (store_get id (docs c1)) eqn:Eg; [ inv_pair H; assumption | ].
   apply store_get_none in Eg. cbv zeta in H.
   set (data := patch (VDoc fs1)) in *.
-  set (c2 := with_docs c1 (docs c1 ++ [(id, data)])) in *.
+  set (c2 := with_docs_w c1 (docs c1 ++ [(id, data)])) in *.
   assert (Hnd2 : store_nd (docs c2)).
   { simpl. apply store_nd_app_end; [ exact (proj1 H1) | exact Eg ]. }
   destruct (ensure_uniques c2 data) as [touched|e] eqn:Eu.
@@ -201,7 +201,7 @@ Proof.
       [ inv_pair H; assumption | ].
     destruct (match d with VDoc fs => assoc "_id" fs | _ => None end);
       [ | inv_pair H; assumption ].
-    set (c1 := with_docs c (store_set k d' (docs c))) in H.
+    set (c1 := with_docs_w c (store_set k d' (docs c))) in H.
     destruct Hi as [Hnd Hpw].
     destruct (ensure_uniques c1 d') as [touched|e] eqn:Eu.
     + destruct (check_expire _ _ _ Eu) as [c2 E2]. rewrite E2 in H.
